@@ -16,6 +16,7 @@ Verdict(e) ==
   ELSE IF S!Found(e.stream) THEN
        IF e.err # "nil" THEN "error-though-header-present"
        ELSE IF e.off # S!First(e.stream) THEN "offset"
+       ELSE IF e.again_err # "nil" \/ e.again_off # 0 THEN "second-sync-on-a-synced-reader-moved"
        ELSE IF e.rest # S!Rest(e.stream) THEN "reader-position"
        ELSE ""
   ELSE IF e.err # "notfound" THEN "not-found-error"
